@@ -344,6 +344,32 @@ impl Exec {
         })
     }
 
+    /// Like `create` but inside an existing directory (crash engine: the directory is the one
+    /// the syscall recorder watches). The caller owns the directory's lifetime (forget the Exec).
+    pub fn create_at(fam: &'static str, obs: Observe, dim: usize, dir: &std::path::Path, name: &str) -> Result<Self, Fail> {
+        let path = dir.join(name);
+        let mem = Memvid::create(&path)
+            .map_err(|e| Fail::new(format!("{fam}:create-failed"), format!("Memvid::create: {e}")))?;
+        let last_wal_size = wal_size_of(&path);
+        Ok(Exec {
+            dir: Scratch(dir.to_path_buf()),
+            path,
+            mem: Some(mem),
+            model: Model::default(),
+            dim,
+            obs,
+            stats: Stats::default(),
+            fam,
+            logfill_overhead: None,
+            gen_no: 0,
+            last_wal_size,
+            committed_once: false,
+            predicted: BTreeMap::new(),
+            soft: Vec::new(),
+            suffix: None,
+        })
+    }
+
     pub fn mem(&mut self) -> &mut Memvid {
         self.mem.as_mut().expect("handle")
     }
